@@ -1,13 +1,16 @@
 #!/bin/bash
-# usage: seedrun.sh <seeded-dir> <property> [tier] : applies a seeded change to /repo, runs the
-# property's check, undoes the change; prints the verdict.
+# usage: seedrun.sh <seeded-dir> <property> [tier]
+# Applies a seeded change in a scratch worktree of /repo (never /repo itself),
+# runs the property's check against it (VERIF_REPO), removes the worktree.
 d=$1; prop=$2; tier=${3:-quick}
-git -C /repo diff --quiet || { echo "/repo is dirty"; exit 2; }
-git -C /repo apply $d/patch.diff || { echo "patch does not apply"; exit 2; }
+wt=$(mktemp -d /tmp/seedrun-XXXXXX); rmdir "$wt"
+git -C /repo worktree add -q --detach "$wt" HEAD || exit 2
+git -C "$wt" apply "$d/patch.diff" || { echo "patch does not apply"; git -C /repo worktree remove --force "$wt"; exit 2; }
 s=$(date +%s)
-out=$(/verif/check $prop $tier 2>/tmp/seedrun.err); rc=$?
+out=$(VERIF_REPO="$wt" /verif/check $prop $tier 2>/tmp/seedrun.$$.err); rc=$?
 e=$(( $(date +%s) - s ))
-git -C /repo checkout -- .
+git -C /repo worktree remove --force "$wt"; git -C /repo worktree prune
 echo "== $d on $prop/$tier: rc=$rc ${e}s violations=$(echo "$out" | grep -c '^VIOLATION')"
 echo "$out" | grep -v KNOWN-FINDING | head -4
-grep -E "natively|inconclusive" /tmp/seedrun.err | head -4 | cut -c1-400
+grep -E "natively|inconclusive" /tmp/seedrun.$$.err | head -4 | cut -c1-400
+rm -f /tmp/seedrun.$$.err
